@@ -1,0 +1,34 @@
+//go:build verif
+
+// Contracts for the verifier in /verif (comment-only; compiled only with -tags verif, adds no code).
+package schemahelper
+
+// ---- C07/C15/C16: the schema of `dynamic`. It has exactly one label, which is the dependency key and is
+// ---- completable (so label completion offers the block types that may be generated), requires for_each,
+// ---- and for every block type of the input schema registers - under the canonical key "label 0 = that
+// ---- type" and nothing else - a body whose single `content` block (exactly one) has a copy of the body
+// ---- the SOURCE schema declares for that same type.
+//@ contract schemahelper.buildDynamicBlockSchema (inputSchema, sourceSchema) (result)
+//@   requires inputSchema != nil && sourceSchema != nil
+//@   assert before schema.NewSchemaKey#1 : [C16,C07,name:keyed-by-the-block-type-as-label-0-only] len(arg0.Labels) == 1 && arg0.Labels[0].Index == 0 && arg0.Labels[0].Value == blockName && len(arg0.Attributes) == 0
+//@   assert before (*schema.BodySchema).Copy#1 : [C16,C07,C15,name:content-is-the-body-of-the-same-block-type-in-the-source-schema] arg0 == sourceSchema.Blocks[blockName].Body
+//@   ghost key after schema.NewSchemaKey#1 : callresult
+//@   loop 1 iter [C16,C07] haskey(dependentBody, key) && dependentBody[key] != nil && len(dependentBody[key].Attributes) == 0 && haskey(dependentBody[key].Blocks, "content")
+//@   ghost copied after (*schema.BodySchema).Copy#1 : callresult
+//@   loop 1 iter [C16,C07,C03,name:content-body-is-the-copy-not-the-shared-original] dependentBody[key].Blocks["content"].Body == copied && freshOrNil(dependentBody[key].Blocks["content"].Body)
+//@   loop 1 iter [C15,C07,name:exactly-one-content-block] dependentBody[key].Blocks["content"].MinItems == 1 && dependentBody[key].Blocks["content"].MaxItems == 1
+//@   ensures [C16,C07] result != nil && fresh(result) && result.DependentBody == dependentBody
+//@   ensures [C16,C07,name:the-one-label-selects-the-body-and-is-completable] len(result.Labels) == 1 && result.Labels[0].IsDepKey && result.Labels[0].Completable
+//@   ensures [C15,C07,name:for_each-is-required] result.Body != nil && haskey(result.Body.Attributes, "for_each") && result.Body.Attributes["for_each"].IsRequired
+//@   ensures [C15,C07,name:iterator-and-labels-are-optional] haskey(result.Body.Attributes, "iterator") && !result.Body.Attributes["iterator"].IsRequired && haskey(result.Body.Attributes, "labels") && !result.Body.Attributes["labels"].IsRequired
+//@   ensures [C15,name:dynamic-itself-has-no-limits] result.MinItems == 0 && result.MaxItems == 0
+
+// ---- C07: the attributes the count / for_each extensions add are optional (never reported as missing,
+// ---- never offered as required) and take an expression of the type the meta-argument accepts.
+//@ contract schemahelper.CountAttributeSchema () (result)
+//@   ensures [C07,C15] result != nil && fresh(result) && result.IsOptional && !result.IsRequired && !result.IsComputed && !result.IsDeprecated
+//@   ensures [C07] typeis(result.Constraint, "schema.AnyExpression") && as(result.Constraint, "schema.AnyExpression").OfType == cty.Number
+//@ contract schemahelper.ForEachAttributeSchema () (result)
+//@   ensures [C07,C15] result != nil && fresh(result) && result.IsOptional && !result.IsRequired && !result.IsComputed && !result.IsDeprecated
+//@   ensures [C07] typeis(result.Constraint, "schema.OneOf") && len(as(result.Constraint, "schema.OneOf")) == 3
+//@   ensures [C07,name:map-or-set-of-strings-or-object] as(as(result.Constraint, "schema.OneOf")[0], "schema.AnyExpression").OfType == cty.Map(cty.DynamicPseudoType) && as(as(result.Constraint, "schema.OneOf")[1], "schema.AnyExpression").OfType == cty.Set(cty.String) && as(as(result.Constraint, "schema.OneOf")[2], "schema.AnyExpression").OfType == cty.EmptyObject
